@@ -61,6 +61,7 @@ def run(facts, rep):
     d1_winner(facts, rep)
     d2_writers(facts, rep)
     d3_propagation(facts, rep)
+    d3_orphaned_lists(facts, rep)
     d4_binding(facts, rep)
     d5_binder(facts, rep)
 
@@ -212,6 +213,44 @@ def d3_propagation(facts, rep):
             rep.ob('D3', 'K5', fn, '%s holds the threads-list mutex' % name,
                    bool(cs) and all(before.get(c[0], frozenset()) for c in cs), 'threads list changed without the mutex')
     rep.floor('D3', 10, 'propagation protocol')
+
+
+def d3_orphaned_lists(facts, rep):
+    """The propagation reaches a context through the context list it is registered in, and reaches the lists through the
+    registered thread_data objects.  When a thread goes away its list is orphaned; if contexts are still registered in
+    it (persistent context objects that outlive the thread that bound them) they must stay reachable: on the non-empty
+    path of context_list::orphan() the list (or its contexts) must be handed to something the propagation walks
+    (cancellation_disseminator / threading_control, or another context_list)."""
+    KEEPERS = ('cancellation_disseminator', 'threading_control', 'threading_control_impl', 'context_list')
+    for fn in facts.get(R1 + 'context_list::orphan'):
+        em = set(c[1] for c in calls_named(fn, ('empty',)))
+        if not em:
+            raise AnalysisBroken('context_list::orphan no longer tests empty()')
+        nonempty = edges_where(fn, lambda a, truth: (not truth) and fn.strip(a) in em)
+        if not nonempty:
+            raise AnalysisBroken('context_list::orphan: no branch on empty()')
+
+        def keeper(p, e):
+            if not isinstance(e, int) or fn.nodes[e].get('k') != 'call':
+                return False
+            d = fn.callee(e) or {}
+            cls = (d.get('cls') or '').split('::')[-1]
+            if cls not in KEEPERS:
+                return False
+            if cls == 'context_list':
+                # a hand-over to ANOTHER list (not a call on this)
+                return d.get('n') in ('push_front', 'splice', 'merge') and fn.n(fn.strip(fn.nodes[e].get('obj', -1))).get('k') != 'this'
+            return True
+        ok = True
+        wit = ''
+        for (b, si) in nonempty:
+            okp, w = every_path_passes(fn, (fn.blocks[b]['succ'][si], -1), keeper)
+            if not okp:
+                ok, wit = False, w
+        rep.ob('D3', 'K3', fn, 'a context list that still holds contexts when its thread goes away stays reachable for the propagation', ok,
+               'the non-empty list is only marked orphaned: cancellation_disseminator::propagate_task_group_state walks the lists of '
+               'registered threads only, so a context bound by a thread that has exited is never reached and stays uncancelled when an '
+               'ancestor is cancelled (' + wit + ')')
 
 
 def d4_binding(facts, rep):
